@@ -25,6 +25,8 @@ theorem of lean/Operon/Props/C18.lean that consumes it:
   * prefixTable      : length of the raw output -> how many of its characters the retry was shown.
   * healedTable      : validator accepts from its k-th answer on (k = 0..5, max_retries 3) -> (outcome, tagged, generator
                        calls, valid); the folded protein must be the validator's last answer, DEGRADED carries none.
+  * threadTable      : provider call j of a tool loop (3 rounds + final completion) -> which tool executions' results its
+                       prompt carries (exactly those of the round before), stub / real Mitochondria / reused nucleus.
   * feedTable        : retry i -> which earlier attempts' validator traces / raw outputs its error context carries
                        (must be exactly attempt i-1), on a fresh loop and on the second call of a used one.
 
@@ -313,6 +315,73 @@ def tool_point(nu, providers, n):
         return None
 
 
+def thread_points(nu, providers):
+    """provider call number j (3 tool rounds, then the final completion) -> which tool executions' results its prompt
+    carries; routes: stub mitochondria / real Mitochondria / a nucleus that has already served a call"""
+    def one(real_mito, nuc=None):
+        prompts = []
+        n = [0]
+
+        class Call:
+            def __init__(self, i):
+                self.id, self.name, self.arguments = f"c{i}", "t", {}
+
+        class Res:
+            def __init__(self, cid, out):
+                self.call_id, self.output, self.success, self.error = cid, out, True, None
+
+        def tool(**kw):
+            n[0] += 1
+            return f"res-{n[0] - 1}-end"
+
+        class Prov:
+            name = "adv"
+
+            def is_available(self):
+                return True
+
+            def complete(self, prompt, config=None):
+                prompts.append(prompt)
+                return providers.LLMResponse("final", "m", 1, 1.0)
+
+            def complete_with_tools(self, prompt, tools=None, config=None):
+                prompts.append(prompt)
+                k = len(prompts)
+                if real_mito:
+                    return providers.LLMResponse("round", "m", 1, 1.0), [providers.ToolCall(id=f"c{k}", name="t", arguments={})]
+                return providers.LLMResponse("round", "m", 1, 1.0), [Call(k)]
+
+        class Mito:
+            def export_tool_schemas(self):
+                return [object()]
+
+            def execute_tool_call(self, call):
+                return Res(call.id, tool())
+        if real_mito:
+            from operon_ai.organelles.mitochondria import Mitochondria
+            mito = Mitochondria(silent=True)
+            mito.register_function("t", tool, "tool")
+        else:
+            mito = Mito()
+        if nuc is None:
+            nuc = nu.Nucleus(provider=Prov())
+        else:
+            nuc.provider = Prov()
+        nuc.transcribe_with_tools("q", mito, max_iterations=3)
+        if len(prompts) != 4:
+            return None, nuc
+        return [[j for j in range(8) if f"res-{j}-end" in p] for p in prompts], nuc
+    try:
+        a, nuc = one(False)
+        b, _ = one(True)
+        c, _ = one(False, nuc)
+        if a is None or a != b or a != c:
+            return [None] * 4
+        return a
+    except Exception:
+        return [None] * 4
+
+
 # ----------------------------------------------------------------------------------------------------------------
 # small tables of heal
 # ----------------------------------------------------------------------------------------------------------------
@@ -566,6 +635,9 @@ def render(cl, rs, nu, providers):
     table("feedTable", "retry i ↦ (attempts whose validator trace, attempts whose raw output) the error context shown to it carries",
           "Nat × Option (List Nat × List Nat)",
           [f"({i + 1}, {_opt(pt, lambda q: f'({lst(q[0])}, {lst(q[1])})')})" for i, pt in enumerate(feed_points(cl, S))])
+    table("threadTable", "provider call j (three tool rounds, then the final completion) ↦ tool executions whose results its prompt carries",
+          "Nat × Option (List Nat)",
+          [f"({j}, {_opt(pt, lst)})" for j, pt in enumerate(thread_points(nu, providers))])
     d = defaults(cl, rs, nu, providers, S)
     L.append("/-- limits as the classes declare them when the caller does not name them -/")
     L.append(f"def defaultMaxRetries : Option Int := {_opt(d['max_retries'], _int)}")
@@ -584,7 +656,7 @@ def render(cl, rs, nu, providers):
 def run(lean_dir: Path, write_if_changed, cl, rs, nu, providers) -> list[dict]:
     text, info = render(cl, rs, nu, providers)
     changed = write_if_changed(Path(lean_dir) / "Operon/Gen/LoopTables.lean", text)
-    points = len(LIMS) * 2 + len(SLIMS) ** 2 + len(MARKER_PROBES) + len(PATTERNS) * len(THRS) + 3 + len(TRACES) + len(PREFIX_LENS) + FEED_N + 6 + 7
+    points = len(LIMS) * 2 + len(SLIMS) ** 2 + len(MARKER_PROBES) + len(PATTERNS) * len(THRS) + 3 + len(TRACES) + len(PREFIX_LENS) + FEED_N + 6 + 4 + 7
     return [{"id": "eval-loops", "facts_changed": bool(changed), "points": points, "poisoned": info["poisoned"]}]
 
 
